@@ -10,14 +10,19 @@ import gc
 import itertools
 import tracemalloc
 
-from vlib import build, gen, monitors, ref, subject
+import os
+
+from vlib import bootstrap, build, gen, monitors, ref, subject
 
 PROPERTY = 'C05'
 RULE = ('random acyclic models (6-16 cells: constants, formulas over cells and '
         'ranges, IF, diamonds, 1-2 sheets), every cell evaluated under many '
         'schedules: all permutations of <= 5 formula cells, sampled '
         'permutations with repetitions beyond, 1-3 evaluators over one model '
-        'interleaved; growth: two windows of N identical evaluation rounds '
+        'interleaved (some with their own namespace: the library functions '
+        'with a user-written eager IF); the model is the compiled one, a deep '
+        'copy, the one restored from JSON or extracted with all cells in '
+        'focus; growth: two windows of N identical evaluation rounds '
         '(gc object count, tracemalloc, live contexts).  non-trivial = '
         'schedule pairs that order two DEPENDENT cells differently; distinct '
         'by (model, schedule)')
@@ -28,7 +33,8 @@ ASSUMPTIONS = [
     'round), never on RSS or elapsed time',
 ]
 FLOORS = {'schedules': 200, 'evaluate_outcomes': 2000, 'snapshots': 50,
-          'growth_windows': 4, 'dependent_order_pairs': 50}
+          'growth_windows': 4, 'dependent_order_pairs': 50,
+          'derived_models': 20, 'own_namespace_evaluators': 20}
 ANCHOR_FUNCS = {
     'xlcalculator/evaluator.py': ['Evaluator.evaluate',
                                   'EvaluatorContext.eval_cell'],
@@ -53,6 +59,21 @@ def snapshot(model):
                  else str(d.address))
              for n, d in model.defined_names.items()}
     return cells, names, sorted(model.formulae), sorted(model.ranges)
+
+
+def user_namespace():
+    """a namespace an application may hand to its Evaluator: the library's
+    functions, IF replaced by the user's own eager version (same results on
+    models without failing branches: both branches are values)"""
+    from xlcalculator.xlfunctions import xl, xlerrors
+
+    def IF(logical_test, value_if_true=True, value_if_false=False):
+        if isinstance(logical_test, xlerrors.ExcelError):
+            return logical_test
+        return value_if_true if logical_test else value_if_false
+    ns = xl.FUNCTIONS.copy()
+    ns['IF'] = IF
+    return ns
 
 
 def leak_run(ctx, model, addrs, rounds, label):
@@ -186,7 +207,24 @@ def run(ctx):
         except ref.Undecided:
             ctx.event('skipped_undecided')
             continue
-        model = build.model_from_dict(wb, default_sheet=sheets[0])
+        prov = rng.choice(['compiled', 'compiled', 'compiled', 'extracted',
+                           'json', 'deepcopy'])
+        scratch = os.path.join(bootstrap.VERIF, 'out', 'c05',
+                               f's{ctx.shard}.json')
+
+        def make_model():
+            return build.derive(
+                build.model_from_dict(wb, default_sheet=sheets[0]), prov,
+                scratch)
+        try:
+            model = make_model()
+        except Exception as e:  # noqa
+            ctx.fail(f'building the {prov} model raised {e!r}',
+                     {'cells': build.dict_of(wb), 'model': prov},
+                     monitor='construction', group='build')
+            continue
+        if prov != 'compiled':
+            ctx.event('derived_models')
         before = snapshot(model)
         formulas = list(m.formulas)
         if len(formulas) <= 5 and rng.random() < 0.5:
@@ -202,7 +240,20 @@ def run(ctx):
                 p += [rng.choice(m.order) for _ in range(rng.randint(0, 6))]
                 perms.append(tuple(p))
         n_ev = rng.randint(1, 3)
-        evs = [Evaluator(model) for _ in range(n_ev)]
+        # some of the evaluators bring their own namespace: the same
+        # functions, IF being the user's own eager version
+        own_ns = rng.random() < 0.4
+
+        def evaluators(mdl):
+            out = []
+            for i in range(n_ev):
+                if own_ns and (i % 2 == 1 or n_ev == 1):
+                    out.append(Evaluator(mdl, namespace=user_namespace()))
+                    ctx.event('own_namespace_evaluators')
+                else:
+                    out.append(Evaluator(mdl))
+            return out
+        evs = evaluators(model)
         positions = []
         for sched in perms:
             ctx.event('schedules')
@@ -213,8 +264,8 @@ def run(ctx):
             fresh = rng.random() < 0.3
             if fresh:
                 # a fresh model for this schedule: nothing evaluated before
-                model2 = build.model_from_dict(wb, default_sheet=sheets[0])
-                evs2 = [Evaluator(model2) for _ in range(n_ev)]
+                model2 = make_model()
+                evs2 = evaluators(model2)
             for k in sched:
                 ev = rng.choice(evs2 if fresh else evs)
                 a = build.addr(k)
@@ -226,8 +277,11 @@ def run(ctx):
                 if not ok:
                     ctx.fail(f'{a} evaluated to {got} under schedule '
                              f'{[build.addr(x) for x in sched]} '
-                             f'({n_ev} evaluators), reference {want[k]}',
-                             {'cells': build.dict_of(wb),
+                             f'({n_ev} evaluators, {prov} model'
+                             f'{", own namespace" if own_ns else ""}), '
+                             f'reference {want[k]}',
+                             {'cells': build.dict_of(wb), 'model': prov,
+                              'own_namespace': own_ns,
                               'schedule': [build.addr(x) for x in sched],
                               'cell': a, 'observed': got,
                               'reference': want[k], 'evaluators': n_ev},
